@@ -129,7 +129,7 @@ func describeTokenDiff(a, b []ltok, i int) string {
 	}
 	// a token of a missing in b?
 	if i+1 < len(a) && a[i+1].typ == b[i].typ && bytes.Equal(a[i+1].bytes, b[i].bytes) {
-		return "lost:" + tokAt(a, i) + ":after-" + tokAt(a, i-1) + "-before-" + tokAt(a, i+1)
+		return "lost:" + tokAt(a, i) + ":after-" + tokAt(a, i-1)
 	}
 	if i+1 < len(b) && b[i+1].typ == a[i].typ && bytes.Equal(b[i+1].bytes, a[i].bytes) {
 		return "extra:" + tokAt(b, i) + ":after-" + tokAt(a, i-1)
